@@ -7,8 +7,13 @@
      integer, exactly representable in every dtype used);
    * time labels = integers in units of a fixed dyadic tick (float64 start + t is exact on that grid);
    * the accumulated dataset and the one-slice dataset of the step are CONCATENATED along `time`
-     (xr.concat): the new slice is appended, nothing is aligned, filled or dropped; the `image` variable
-     of the result has one dtype, run_pipeline casts it to the dtype of the detector's CURRENT image;
+     (xr.concat): the new slice is appended, nothing is aligned, filled or dropped; every variable of the
+     result has ONE dtype, numpy's common type (`join`) of its slices -- a step at which the container was not
+     initialised counts as float64 (NaN) --: widening changes no value; run_pipeline then casts the `image`
+     variable to the dtype of the detector's CURRENT image unless it still has an unsigned integer type;
+   * every variable read out of a container carries y / x labels: the index ranges when the read-out sets them
+     (table `relabel`), otherwise the labels the stored 3-D photon cube carries; the model only says what the
+     result is when all variables of all steps carry the same labels (nothing to align);
    * a read-out (`to_xarray`) either copies the container's buffer or not (table `copies`); a record that was
      not copied follows the container while it keeps its buffer. *)
 From Coq Require Import ZArith List Bool Ascii String Lia.
@@ -30,6 +35,25 @@ Definition is_unsigned (t : dtype) : bool :=
 
 Definition width (t : dtype) : Z :=
   match t with U8 => 8 | U16 => 16 | U32 => 32 | U64 => 64 | F16 => 16 | F32 => 32 | F64 => 64 end.
+
+(* numpy's common type (np.result_type / promote_types) of two of these dtypes: the wider of two unsigned
+   or of two float types; an unsigned and a float type: the narrowest float type that holds both *)
+Definition join (a b : dtype) : dtype :=
+  match a, b with
+  | F64, _ | _, F64 => F64
+  | U64, (F16 | F32) | (F16 | F32), U64 => F64
+  | U32, (F16 | F32) | (F16 | F32), U32 => F64
+  | U64, _ | _, U64 => U64
+  | U32, _ | _, U32 => U32
+  | F32, _ | _, F32 => F32
+  | U16, F16 | F16, U16 => F32
+  | U16, _ | _, U16 => U16
+  | F16, _ | _, F16 => F16
+  | U8, U8 => U8
+  end.
+
+(* a <= b in that order: converting an array of type a to type b changes no value *)
+Definition dtype_le (a b : dtype) : bool := dtype_eqb (join a b) b.
 
 Inductive bucket := Photon | Charge | Pixel | Signal | Image.
 
@@ -70,6 +94,8 @@ Inductive label_src := LAbsolute | LRelative.    (* detector.absolute_time | det
 
 Record tables := {
   tb_copies : ckind -> bool;                (* to_xarray of each container kind: does it copy the buffer *)
+  tb_relabel : ckind -> bool;               (* to_xarray: are the y / x coordinates SET to the index ranges, whatever the
+                                               stored array carries (false: only added when the array has none) *)
   tb_label : label_src;                     (* _extract_datatree_2d: which time labels the slice *)
   tb_exported : list (bucket * bucket);     (* _extract_datatree_2d: variable of the step dataset <- container read *)
   tb_visible : list (bucket * bucket);      (* Detector.to_xarray (debug capture): variable <- container, in order *)
@@ -78,7 +104,7 @@ Record tables := {
 Definition id_pairs : list (bucket * bucket) := map (fun b => (b, b)) all_buckets.
 
 Definition tables_as_coded : tables :=
-  {| tb_copies := copies_as_coded; tb_label := LAbsolute; tb_exported := id_pairs; tb_visible := id_pairs;
+  {| tb_copies := copies_as_coded; tb_relabel := fun _ => true; tb_label := LAbsolute; tb_exported := id_pairs; tb_visible := id_pairs;
      tb_skip_zero := fun b => bucket_eqb b Charge |}.
 
 Fixpoint source_of (t : list (bucket * bucket)) (v : bucket) : option bucket :=
@@ -105,7 +131,7 @@ Definition label_abs_b (t : tables) : bool := match tb_label t with LAbsolute =>
 
 (* everything the theorems of Properties/C03.v ask of the tables *)
 Definition tables_ok (t : tables) : bool :=
-  all_copy (tb_copies t) && label_abs_b t && exports_all_b t && visible_std_b t.
+  all_copy (tb_copies t) && label_abs_b t && exports_all_b t && visible_std_b t && forallb (tb_relabel t) all_kinds.
 
 Inductive cast_kind := CastKeep | CastF64.
 Inductive lguard := GAlways | GHier | GFlat | GDebug | GOutputs.
@@ -122,7 +148,8 @@ Record shape_facts := {
   sf_reset_flag_negated : bool;             (* detector.empty(not detector.non_destructive_readout) *)
   sf_fix_var : string;                      (* the variable whose dtype is restored ... *)
   sf_fix_guarded : bool;                    (* ... only when the detector holds an image ... *)
-  sf_fix_target : string;                   (* ... to the dtype of this container *)
+  sf_fix_target : string;                   (* ... to the dtype of this container ... *)
+  sf_fix_keeps_unsigned : bool;             (* ... unless the variable still has an unsigned integer type *)
   sf_layout : list (string * lguard);       (* keys of the final DataTree, in insertion order, with their guards *)
   sf_scene_forces_hier : bool;
   sf_scene_src : string; sf_data_src : string; sf_inter_src : string;
@@ -191,13 +218,13 @@ Definition cast_to (t : dtype) (a : arr) : arr :=
   else {| a_dt := t; a_shape := a_shape a;
           a_vals := if is_unsigned t then map (fun v => v mod 2 ^ width t) (a_vals a) else a_vals a |}.
 
-(* the `image` variable of the concatenated dataset has ONE dtype (numpy's common type of the slices, for
-   unsigned integers the wider one: exact); "fix the data type of the image" then casts it to the dtype of
-   the image the detector holds now.  Both together: every earlier image slice is cast to that dtype.
+(* "fix the data type of the image": the `image` variable of the concatenated dataset (which has ONE dtype, see
+   `promote` below) is cast to the dtype of the image the detector holds now -- unless it still has an unsigned
+   integer type (then it is the wider of the readouts' types and nothing was lost).
    cur = the image the detector holds now; nothing is done when it holds none. *)
 Definition fix_image (cur : option arr) (s : snapshot) : snapshot :=
   match s_image s, cur with
-  | Some a, Some c => set s Image (Some (cast_to (a_dt c) a))
+  | Some a, Some c => if is_unsigned (a_dt a) then s else set s Image (Some (cast_to (a_dt c) a))
   | _, _ => s
   end.
 
@@ -209,9 +236,28 @@ Definition dataset := list slice.        (* in readout order *)
 Definition fix_all (cur : option arr) (d : dataset) : dataset :=
   map (fun ls => (fst ls, fix_image cur (snd ls))) d.
 
+(* ---- one variable, one dtype.  The dtype a slice contributes: its own, float64 (a NaN) where the container
+   was not initialised at that step.  `common b d`: numpy's common type of all slices of variable b. ---- *)
+Definition odt (o : option arr) : dtype := match o with Some a => a_dt a | None => F64 end.
+
+Definition common (b : bucket) (d : dataset) : dtype :=
+  fold_right (fun ls acc => join (odt (get (snd ls) b)) acc) U8 d.
+
+(* conversion to a type that is at least as wide: no value changes *)
+Definition widen (t : dtype) (a : arr) : arr := {| a_dt := t; a_shape := a_shape a; a_vals := a_vals a |}.
+
+Definition build_snapshot (f : bucket -> option arr) : snapshot :=
+  {| s_photon := f Photon; s_charge := f Charge; s_pixel := f Pixel; s_signal := f Signal; s_image := f Image |}.
+
+Definition promote_slice (cs : bucket -> dtype) (s : snapshot) : snapshot :=
+  build_snapshot (fun b => option_map (widen (cs b)) (get s b)).
+
+Definition promote (d : dataset) : dataset :=
+  map (fun ls => (fst ls, promote_slice (fun b => common b d) (snd ls))) d.
+
 (* xr.concat([accumulated, step], dim="time") + the dtype restoration *)
 Definition concat_step (d : dataset) (x : slice) : dataset :=
-  fix_all (s_image (snd x)) (d ++ [x]).
+  fix_all (s_image (snd x)) (promote (d ++ [x])).
 
 Fixpoint assemble_from (d : dataset) (xs : list slice) : dataset :=
   match xs with
@@ -265,6 +311,22 @@ Record inode := { n_step : nat; n_group : string; n_name : string; n_vars : capt
 
 Inductive layout := Flat | Hier.
 
+Fixpoint iota (v : Z) (n : nat) : list Z :=
+  match n with O => [] | S n' => v :: iota (v + 1) n' end.
+
+Definition range0 (n : Z) : list Z := iota 0 (Z.to_nat n).
+
+Definition coords := (list Z * list Z)%type.      (* y labels, x labels *)
+
+Definition coords_eqb (a b : coords) : bool := zlist_eqb (fst a) (fst b) && zlist_eqb (snd a) (snd b).
+
+(* all the same -> that one; none -> the default *)
+Definition agree (dflt : coords) (l : list coords) : option coords :=
+  match l with
+  | [] => Some dflt
+  | c :: l' => if forallb (coords_eqb c) l' then Some c else None
+  end.
+
 Section Exposure.
   Context {Scene Data : Type}.
   Variable empty_scene : Scene.
@@ -274,7 +336,10 @@ Section Exposure.
   (* d_gen b: the identity ("generation") of the buffer that container b holds.  A model that changes a
      container IN PLACE (`+=`, `[...] =`, Charge.add_charge_array) keeps it; one that assigns a new array
      (`.array = new`) changes it.  Only equality of the generations of two CONSECUTIVE states is ever used. *)
-  Record det := { d_snap : snapshot; d_gen : bucket -> nat; d_scene : Scene; d_data : Data }.
+  (* d_plab: the y / x labels the stored 3-D photon cube carries (None: the cube has no such coordinate; numpy
+     buffers never have any) *)
+  Record det := { d_snap : snapshot; d_gen : bucket -> nat; d_plab : option (list Z) * option (list Z);
+                  d_scene : Scene; d_data : Data }.
 
   (* a model function: any transformer of the detector, may depend on the step index *)
   Record mdl := { m_group : string; m_name : string; m_fn : nat -> det -> det }.
@@ -299,6 +364,7 @@ Section Exposure.
                     s_pixel := if keep_pixel then s_pixel (d_snap d) else Some (zeros shp);
                     s_signal := None; s_image := None |};
        d_gen := fun b => if keep_pixel && bucket_eqb b Pixel then d_gen d b else S (d_gen d b);
+       d_plab := (None, None);
        d_scene := empty_scene; d_data := d_data d |}.
 
   Definition view (d : det) : snapshot := extract (d_snap d).
@@ -331,9 +397,6 @@ Section Exposure.
   (* an array read out of container src in state d, seen after the detector went through the states `later` *)
   Definition settle_arr (d : det) (later : list det) (src : bucket) (a : arr) : arr :=
     if tb_copies tbl (kind_of src a) then a else follow src (d_gen d src) a later.
-
-  Definition build_snapshot (f : bucket -> option arr) : snapshot :=
-    {| s_photon := f Photon; s_charge := f Charge; s_pixel := f Pixel; s_signal := f Signal; s_image := f Image |}.
 
   (* _extract_datatree_2d: the variables of the step dataset, each read out of its container *)
   Definition export (s : snapshot) : snapshot :=
@@ -410,6 +473,7 @@ Section Exposure.
     t_bucket_path : string;               (* node that holds the bucket variables *)
     t_children : list string;             (* children of the root, in order *)
     t_buckets : dataset;
+    t_coords : option coords;             (* y / x labels of the bucket node; None: variables had to be aligned *)
     t_inter : option (list inode);
     t_scene : Scene;
     t_data : Data }.
@@ -445,6 +509,33 @@ Section Exposure.
         settle_export e0 later (view e0) :: map (fun d => export (view d)) rest
     end.
 
+  (* ---- the y / x labels.  A variable read out of container src carries the index ranges when its read-out
+     sets them; otherwise (3-D photon cube only: numpy buffers carry no labels) what the stored cube carries.
+     `dataset[key] = data_array` and xr.concat ALIGN variables whose labels differ (re-indexing, NaN-filling): the
+     model only describes the result when there is nothing to align -- all variables of all steps carry the same
+     labels -- and says None otherwise. ---- *)
+  Definition index_coords (shp : list Z) : coords := (range0 (nth 0 shp 0), range0 (nth 1 shp 0)).
+
+  Definition var_coords (shp : list Z) (d : det) (src : bucket) (a : arr) : coords :=
+    let k := kind_of src a in
+    if tb_relabel tbl k then index_coords shp
+    else match k with
+         | KPhoton3 => (match fst (d_plab d) with Some l => l | None => fst (index_coords shp) end,
+                        match snd (d_plab d) with Some l => l | None => snd (index_coords shp) end)
+         | _ => index_coords shp
+         end.
+
+  (* the labels of every variable of the step dataset read out of state d *)
+  Definition step_var_coords (shp : list Z) (d : det) : list coords :=
+    flat_map (fun vs => match get (view d) (snd vs) with
+                        | Some a => [var_coords shp d (snd vs) a]
+                        | None => []
+                        end) (tb_exported tbl).
+
+  (* no variable at all: the dataset has no y / x coordinate *)
+  Definition result_coords (shp : list Z) (ends : list det) : option coords :=
+    agree ([], []) (flat_map (step_var_coords shp) ends).
+
   Definition exposure (c : config) (d_init : det) : tree :=
     let d0 := reset (c_shape c) false d_init in
     let n := List.length (c_times c) in
@@ -454,6 +545,7 @@ Section Exposure.
     {| t_bucket_path := bucket_path l;
        t_children := children l (c_debug c);
        t_buckets := assemble (combine (labels c) (views c ends));
+       t_coords := result_coords (c_shape c) ends;
        t_inter := if c_debug c then Some (debug_steps c 0 n d0) else None;
        t_scene := d_scene final;
        t_data := d_data final |}.
@@ -462,7 +554,7 @@ Section Exposure.
   Definition strip_debug (t : tree) : tree :=
     {| t_bucket_path := t_bucket_path t;
        t_children := filter (fun s => negb (String.eqb s "intermediate")) (t_children t);
-       t_buckets := t_buckets t; t_inter := None; t_scene := t_scene t; t_data := t_data t |}.
+       t_buckets := t_buckets t; t_coords := t_coords t; t_inter := None; t_scene := t_scene t; t_data := t_data t |}.
 
   Definition with_debug (c : config) (b : bool) : config :=
     {| c_shape := c_shape c; c_start := c_start c; c_times := c_times c; c_nondestr := c_nondestr c;
@@ -507,14 +599,16 @@ End DebugSpec.
 
 (* ------------------------------------------------------------------------ hypotheses of C03_slices *)
 
-(* the dtype restoration leaves every recorded image as it was *)
-Definition image_stable (snaps : list snapshot) : Prop :=
-  forall s s', In s snaps -> In s' snaps -> fix_image (s_image s') s = s.
-
-(* image initialised in no step, or in every step with one dtype (any values) *)
-Definition image_uniform (snaps : list snapshot) : Prop :=
+(* image initialised in no step, or in every step with an unsigned integer type -- any of them, it may differ from
+   step to step -- and any values *)
+Definition image_regular (snaps : list snapshot) : Prop :=
   (forall s, In s snaps -> s_image s = None) \/
-  (exists t, forall s, In s snaps -> exists a, s_image s = Some a /\ a_dt a = t).
+  (forall s, In s snaps -> exists a, s_image s = Some a /\ is_unsigned (a_dt a) = true).
+
+(* variable b has the same dtype at every step: initialised in no step, or in every step with one dtype *)
+Definition uniform (b : bucket) (d : dataset) : Prop :=
+  (forall ls, In ls d -> get (snd ls) b = None) \/
+  (exists t, forall ls, In ls d -> exists a, get (snd ls) b = Some a /\ a_dt a = t).
 
 (* ===================================================================== correspondence case files *)
 
@@ -531,7 +625,10 @@ Inductive wmode := WAssign | WIAdd | WISet.
 Record write := {
   w_bucket : bucket;
   w_dt : dtype;
+  w_dts : list dtype;            (* the dtype written at step i when the list has an i-th entry (else w_dt) *)
   w_waves : Z;                   (* photon only: 0 = 2-D array, k >= 1 = 3-D with k wavelengths *)
+  w_ylab : option (list Z);      (* 3-D photon only: the y / x labels the cube handed to the container carries *)
+  w_xlab : option (list Z);
   w_mode : wmode;
   w_per_step : list Z }.         (* base value at step i; the array is base + 0, base + 1, ... *)
 
@@ -540,9 +637,6 @@ Inductive action :=
 | AData (key : string) (per_step : list Z)     (* detector.data[key] = [v_i] : kept across steps *)
 | AScene (key : string) (per_step : list Z)    (* detector.scene gets one source list [v_i] *)
 | ANop.                                        (* recorder / no-op model *)
-
-Fixpoint iota (v : Z) (n : nat) : list Z :=
-  match n with O => [] | S n' => v :: iota (v + 1) n' end.
 
 Definition nelems (shp : list Z) : nat := Z.to_nat (fold_right Z.mul 1 shp).
 
@@ -556,7 +650,7 @@ Definition apply_write (shp : list Z) (i : nat) (w : write) (s : snapshot) : sna
               | Photon => if w_waves w =? 0 then shp else w_waves w :: shp
               | _ => shp
               end in
-  let dt := match b with Charge => F64 | _ => w_dt w end in
+  let dt := match b with Charge => F64 | _ => nth i (w_dts w) (w_dt w) end in
   let fresh := {| a_dt := dt; a_shape := shp'; a_vals := iota v (nelems shp') |} in
   if v <? 0 then (s, false)        (* a negative entry: the writer does nothing at this step *)
   else
@@ -584,9 +678,15 @@ Definition apply_action (shp : list Z) (a : action) (i : nat) (d : pdet) : pdet 
       let r := apply_write shp i w (d_snap d) in
       {| d_snap := fst r;
          d_gen := fun b => if snd r && bucket_eqb b (w_bucket w) then S (d_gen d b) else d_gen d b;
+         (* a new photon buffer brings its own labels (a numpy array: none); an in-place change keeps the cube's *)
+         d_plab := if snd r && bucket_eqb (w_bucket w) Photon
+                   then (if w_waves w =? 0 then (None, None) else (w_ylab w, w_xlab w))
+                   else d_plab d;
          d_scene := d_scene d; d_data := d_data d |}
-  | AData k vs => {| d_snap := d_snap d; d_gen := d_gen d; d_scene := d_scene d; d_data := pl_set k [nth i vs 0] (d_data d) |}
-  | AScene k vs => {| d_snap := d_snap d; d_gen := d_gen d; d_scene := pl_set k [nth i vs 0] (d_scene d); d_data := d_data d |}
+  | AData k vs => {| d_snap := d_snap d; d_gen := d_gen d; d_plab := d_plab d; d_scene := d_scene d;
+                     d_data := pl_set k [nth i vs 0] (d_data d) |}
+  | AScene k vs => {| d_snap := d_snap d; d_gen := d_gen d; d_plab := d_plab d;
+                      d_scene := pl_set k [nth i vs 0] (d_scene d); d_data := d_data d |}
   | ANop => d
   end.
 
@@ -614,7 +714,7 @@ Definition payload_is_empty (p : payload) : bool := negb (existsb (fun kv => is_
 Definition blank : snapshot :=
   {| s_photon := None; s_charge := None; s_pixel := None; s_signal := None; s_image := None |}.
 
-Definition pdet0 : pdet := {| d_snap := blank; d_gen := fun _ => O; d_scene := []; d_data := [] |}.
+Definition pdet0 : pdet := {| d_snap := blank; d_gen := fun _ => O; d_plab := (None, None); d_scene := []; d_data := [] |}.
 
 (* ---- what the driver observed ---- *)
 
@@ -629,6 +729,7 @@ Record otree := {
   o_time : list Z;
   o_y : list Z;
   o_x : list Z;
+  o_wl : list Z;                       (* labels of the `wavelength` coordinate ([] : none) *)
   o_vars : list ovar;
   o_inter : option (list inode);
   o_scene : payload;
@@ -644,6 +745,7 @@ Record case := {
   k_result : option otree;             (* None: the run raised *)
   k_result_nodebug : option otree;     (* the same run with debug off (given when k_debug) *)
   k_snaps : list (Z * snapshot);       (* the last-running recorder: absolute_time, containers *)
+  k_wl : list (list Z);                (* ... and the wavelength labels of the photon cube it held ([] : no cube) *)
   k_scene_seen : payload;              (* scene / data held by the detector at the end of the last step *)
   k_data_seen : payload;
   k_mrecs : list mrec }.
@@ -685,7 +787,12 @@ Fixpoint first_some {A} (l : list (option A)) : option A :=
 
 (* does the observed variable of bucket b consist of exactly the given slices (in order)?  A step at which the
    container was not initialised gives an all-NaN slice (and makes the variable float64: xr.concat broadcasts
-   the NaN scalar of that step against the arrays of the others). *)
+   the NaN scalar of that step against the arrays of the others).
+   exact = true  (model vs implementation): the slices are those of the model's result, which carry the dtype of
+                 the variable;
+   exact = false (specification): the slices are what the detector held (each in its own dtype): the VALUES and
+                 shapes must be those; an image variable must have the image's unsigned type -- when the type
+                 differs between the steps, the narrowest type that holds them all (`join`). *)
 Definition var_matches (exact : bool) (n : nat) (b : bucket) (sl : list (option arr)) (vs : list ovar) : bool :=
   match find_var b vs with
   | None => false
@@ -704,25 +811,24 @@ Definition var_matches (exact : bool) (n : nat) (b : bucket) (sl : list (option 
           && (List.length (ov_vals v) =? n * k)%nat
           && forallb (fun p => match fst p with
                                | None => forallb (Z.eqb nan_mark) (snd p)
-                               | Some a => (negb exact || dtype_eqb (if mixed then F64 else a_dt a) (ov_dt v))
-                                           && (negb (bucket_eqb b Image) || dtype_eqb (a_dt a) (ov_dt v))
+                               | Some a => (negb exact || dtype_eqb (a_dt a) (ov_dt v))
+                                           && (negb (bucket_eqb b Image) || mixed
+                                               || dtype_eqb (ov_dt v) (fold_right (fun o acc => join (odt o) acc) U8 sl))
                                            && zlist_eqb (a_shape a) (a_shape a0)
                                            && zlist_eqb (a_vals a) (snd p)
                                end) (combine sl (chunks k n (ov_vals v)))
       end
   end.
 
-Definition range0 (n : Z) : list Z := iota 0 (Z.to_nat n).
-
 (* what is judged: every bucket initialised in every step or in none, and the float buckets initialised in some
    steps only (an integer image that is missing at some step goes through NaN and a cast: not judged) *)
 Definition judged (b : bucket) (sl : list (option arr)) : bool :=
   forallb is_none sl || forallb (fun o => negb (is_none o)) sl || negb (bucket_eqb b Image).
 
-Definition dataset_matches (exact : bool) (rows cols : Z) (ds : dataset) (o : otree) : bool :=
+Definition dataset_matches (exact : bool) (yx : coords) (ds : dataset) (o : otree) : bool :=
   let n := List.length ds in
   zlist_eqb (o_time o) (map fst ds)
-  && zlist_eqb (o_y o) (range0 rows) && zlist_eqb (o_x o) (range0 cols)
+  && zlist_eqb (o_y o) (fst yx) && zlist_eqb (o_x o) (snd yx)
   && (List.length (o_vars o) =? 5)%nat
   && forallb (fun b => let sl := map (fun ls => get (snd ls) b) ds in
                        negb (judged b sl) || var_matches exact n b sl (o_vars o)) all_buckets.
@@ -778,7 +884,7 @@ Definition shape_as_modelled : shape_facts :=
      sf_first_step_as_is := true;
      sf_step_order := ["reset"%string; "run"%string; "extract"%string; "concat"%string];
      sf_reset_flag_negated := true;
-     sf_fix_var := "image"; sf_fix_guarded := true; sf_fix_target := "image";
+     sf_fix_var := "image"; sf_fix_guarded := true; sf_fix_target := "image"; sf_fix_keeps_unsigned := true;
      sf_layout := [("/bucket"%string, GHier); ("/"%string, GFlat); ("/intermediate"%string, GDebug);
                    ("/output"%string, GOutputs); ("/scene"%string, GAlways); ("/data"%string, GAlways)];
      sf_scene_forces_hier := true;
@@ -814,6 +920,7 @@ Definition shape_eqb (a b : shape_facts) : bool :=
   && Bool.eqb (sf_reset_flag_negated a) (sf_reset_flag_negated b)
   && String.eqb (sf_fix_var a) (sf_fix_var b) && Bool.eqb (sf_fix_guarded a) (sf_fix_guarded b)
   && String.eqb (sf_fix_target a) (sf_fix_target b)
+  && Bool.eqb (sf_fix_keeps_unsigned a) (sf_fix_keeps_unsigned b)
   && layout_eqb (sf_layout a) (sf_layout b)
   && Bool.eqb (sf_scene_forces_hier a) (sf_scene_forces_hier b)
   && String.eqb (sf_scene_src a) (sf_scene_src b) && String.eqb (sf_data_src a) (sf_data_src b)
@@ -855,7 +962,10 @@ Definition model_tree (tbl : tables) (k : case) : option (tree payload payload) 
 Definition tree_matches (k : case) (t : tree payload payload) (o : otree) : bool :=
   String.eqb (t_bucket_path t) (o_bucket_path o)
   && string_list_eqb (t_children t) (o_children o)
-  && dataset_matches true (k_rows k) (k_cols k) (t_buckets t) o
+  && match t_coords t with
+     | Some yx => dataset_matches true yx (t_buckets t) o
+     | None => false                     (* variables had to be aligned: outside the model *)
+     end
   && match t_inter t, o_inter o with
      | None, None => true
      | Some a, Some b => inodes_eqb a b
@@ -909,9 +1019,21 @@ Definition inode_of_mrec (r : mrec) : inode :=
 Definition same_buckets (a b : otree) : bool :=
   String.eqb (o_bucket_path a) (o_bucket_path b)
   && zlist_eqb (o_time a) (o_time b) && zlist_eqb (o_y a) (o_y b) && zlist_eqb (o_x a) (o_x b)
+  && zlist_eqb (o_wl a) (o_wl b)
   && ovars_eqb (o_vars a) (o_vars b) && payload_eqb (o_scene a) (o_scene b)
   && payload_eqb (o_data a) (o_data b)
   && string_list_eqb (filter (fun s => negb (String.eqb s "intermediate")) (o_children a)) (o_children b).
+
+(* the wavelength labels of the result are those of the cubes the detector held (judged when it held a cube with
+   the same labels at the end of every step) *)
+Definition wavelengths_ok (k : case) (o : otree) : bool :=
+  match k_wl k with
+  | [] => true
+  | w :: ws => match w with
+               | [] => true
+               | _ => negb (forallb (zlist_eqb w) ws) || zlist_eqb (o_wl o) w
+               end
+  end.
 
 Definition spec_clauses (k : case) : list Z :=
   match k_result k with
@@ -920,7 +1042,8 @@ Definition spec_clauses (k : case) : list Z :=
       let want_labels := map (Z.add (k_start k)) (k_times k) in
       let hier := k_hier k || negb (payload_is_empty (k_scene_seen k)) in
       (if zlist_eqb (map fst (k_snaps k)) want_labels
-          && dataset_matches false (k_rows k) (k_cols k) (k_snaps k) o then [] else [2])
+          && dataset_matches false (range0 (k_rows k), range0 (k_cols k)) (k_snaps k) o
+          && wavelengths_ok k o then [] else [2])
       ++ (if String.eqb (o_bucket_path o) (if hier then "/bucket" else "/")
              && string_list_eqb (o_children o)
                   (children (if hier then Hier else Flat) (k_debug k)) then [] else [3])
